@@ -586,3 +586,59 @@ par_step!(par_t_azd_zst_n1, RAZD, [true, true, false] x 1,
     views = (entity::Identifier, &Z, Option<&mut A>), bind = (id, z, oa), checks = [(id id), (req 1 z), (opt 0 oa)]);
 par_step!(par_t_ab_n0, RAB, [true, true] x 0,
     views = (entity::Identifier, &mut A, &mut B), bind = (id, a, bb), checks = [(id id), (req 0 a), (req 1 bb)]);
+
+// ------------------------------------------------------------------------------------------
+// Bit indices of entry views (used by query-time `Entries` to filter on the super views): each
+// view's index is its component's position in the registry, whatever kinds precede it.
+// ------------------------------------------------------------------------------------------
+
+use crate::registry::{
+    contains::views::{
+        ContainsViewsOuter,
+        Sealed as ContainsViewsSealed,
+    },
+    ContainsViews,
+};
+
+fn view_indices<'a, R, V, I>() -> V::Indices
+where
+    V: view::Views<'a>,
+    R: ContainsViews<'a, V, I>,
+{
+    <<R as ContainsViewsSealed<'a, V, I>>::Viewable as ContainsViewsOuter<
+        'a,
+        V,
+        <R as ContainsViewsSealed<'a, V, I>>::Containments,
+        <R as ContainsViewsSealed<'a, V, I>>::Indices,
+        <R as ContainsViewsSealed<'a, V, I>>::ReshapeIndices,
+    >>::indices()
+}
+
+#[kani::proof]
+#[kani::unwind(6)]
+pub fn indices_q_dbwa_every_kind_before() {
+    // D=0, B=1, W=2, A=3.  Every view kind in front of a later view, in requested (not registry) order.
+    let crate::query::result!(a, d) = view_indices::<'static, RDBWA, crate::query::Views!(&A, &D), _>();
+    vassert!(a == 3 && d == 0, "indices after a & view");
+    let crate::query::result!(a, d) = view_indices::<'static, RDBWA, crate::query::Views!(&A, &mut D), _>();
+    vassert!(a == 3 && d == 0, "indices after a &mut view");
+    let crate::query::result!(a, d) = view_indices::<'static, RDBWA, crate::query::Views!(&A, Option<&D>), _>();
+    vassert!(a == 3 && d == 0, "indices after an Option<&> view");
+    let crate::query::result!(a, d) = view_indices::<'static, RDBWA, crate::query::Views!(&A, Option<&mut D>), _>();
+    vassert!(a == 3 && d == 0, "indices after an Option<&mut> view");
+    let crate::query::result!(w, b, d, a) = view_indices::<'static, RDBWA, crate::query::Views!(&mut W, Option<&mut B>, Option<&D>, &A), _>();
+    vassert!(w == 2 && b == 1 && d == 0 && a == 3, "four views, every kind, scrambled order");
+    let crate::query::result!(w, b) = view_indices::<'static, RDBWA, crate::query::Views!(Option<&mut W>, Option<&mut B>), _>();
+    vassert!(w == 2 && b == 1, "two optional mutable views in the middle of the registry");
+    kani::cover!(true, "reached end");
+}
+
+#[kani::proof]
+#[kani::unwind(6)]
+pub fn indices_q_r9_across_the_byte_boundary() {
+    let crate::query::result!(c8, c0, c7) = view_indices::<'static, R9, crate::query::Views!(&C8, Option<&mut C0>, &mut C7), _>();
+    vassert!(c8 == 8 && c0 == 0 && c7 == 7, "indices in a nine-component registry");
+    let crate::query::result!(c8, c3) = view_indices::<'static, R9, crate::query::Views!(Option<&C8>, Option<&mut C3>), _>();
+    vassert!(c8 == 8 && c3 == 3, "optional views, second byte");
+    kani::cover!(true, "reached end");
+}
